@@ -6,7 +6,8 @@
    refused by the peer, peer detach / end with and without error, handle drops, sends queued right
    before a detach / end / drop. *)
 EXTENDS Integers, Sequences, FiniteSets, TLC, Json
-CONSTANTS Depth, PeerHandleBase, Side     \* Side: "client" | "listener" (the endpoint accepts sessions and links the peer starts)
+CONSTANTS Depth, PeerHandleBase, Side, Focus, C1, C2     \* C1 / C2: the channel numbers the peer uses for its first / second session (need not mirror the endpoint's)
+\*     \* Side: "client" | "listener" (the endpoint accepts sessions and links the peer starts)
 
 VARIABLES script, att, s2, ended1, pdet, s3
 vars == <<script, att, s2, ended1, pdet, s3>>
@@ -22,14 +23,20 @@ Ev == {"AttS1", "AttR2", "AttDup", "Refuse4", "DetS1", "CloseS1", "DropS1", "Clo
        \* frames of the peer that were on their way when the endpoint ended the session (plain / with an error): nothing is answered after the end
        "End1Traffic", "End1errTraffic",
        \* the application has seen the peer's detach (on_detach) and then drops the handle: the detach is still answered
-       "PDetS1seenDrop"}
-ClientOnly == {"AttDup", "Refuse4"}
+       "PDetS1seenDrop",
+       \* a receiving link whose session-to-link channel holds exactly three frames gets three deliveries that nobody reads, then the peer closes
+       \* it with an error: the channel is full when the detach arrives; the application still gets the deliveries and then the peer's error
+       "R6FullPClose"}
+ClientOnly == {"AttDup", "Refuse4", "R6FullPClose"}
+\* Focus = "sessions": only the events that begin / end sessions and put traffic on them (channel numbers the peer chooses freely)
+SessionEvents == {"AttS1", "Send1", "AttR2", "In2", "Beg2", "AttS3", "Send3", "End1", "End1err", "PEnd1", "End2", "Beg3", "AttS5", "Send5"}
 Enabled(e) ==
-  (Side = "client" \/ e \notin ClientOnly) /\
+  (Side = "client" \/ e \notin ClientOnly) /\ (Focus = "all" \/ e \in SessionEvents) /\
   CASE e = "AttS1" -> ~ended1 /\ "L1" \notin att
     [] e = "AttR2" -> ~ended1 /\ "L2" \notin att
     [] e = "AttDup" -> ~ended1 /\ "L1" \in att /\ "L1" \notin pdet
     [] e = "Refuse4" -> ~ended1
+    [] e = "R6FullPClose" -> ~ended1 /\ "L6" \notin att
     [] e \in {"DetS1", "CloseS1", "DropS1", "PDetS1err", "PDetS1nc", "PDetS1idle", "PDetS1close", "PDetS1drop", "PDetS1seenDrop", "Send1", "SendDrop1", "SendDet1"} -> ~ended1 /\ "L1" \in att /\ "L1" \notin pdet
     [] e \in {"CloseR2", "PCloseR2", "In2"} -> ~ended1 /\ "L2" \in att /\ "L2" \notin pdet
     [] e = "Beg2" -> ~s2
@@ -43,7 +50,7 @@ Enabled(e) ==
     [] e \in {"SendEnd1", "SendQEndErr1", "DropEndErr1", "End1Traffic", "End1errTraffic"} -> ~ended1 /\ "L1" \in att /\ "L1" \notin pdet
 Step(e) ==
   /\ Len(script) < Depth /\ Enabled(e) /\ script' = Append(script, e)
-  /\ att' = CASE e = "AttS1" -> att \cup {"L1"} [] e = "AttR2" -> att \cup {"L2"} [] e = "AttS3" -> att \cup {"L3"} [] e = "AttS5" -> att \cup {"L5"}
+  /\ att' = CASE e = "AttS1" -> att \cup {"L1"} [] e = "AttR2" -> att \cup {"L2"} [] e = "AttS3" -> att \cup {"L3"} [] e = "AttS5" -> att \cup {"L5"} [] e = "R6FullPClose" -> att \cup {"L6"}
               [] e \in {"DetS1", "CloseS1", "DropS1", "SendDrop1", "SendDet1", "PDetS1close", "PDetS1drop", "PDetS1seenDrop"} -> att \ {"L1"} [] e = "CloseR2" -> att \ {"L2"}
               [] e \in {"End1", "End1err", "PEnd1", "PEnd1err", "End1PErr", "SendEnd1", "SendQEndErr1", "DropEndErr1", "End1Traffic", "End1errTraffic"} -> att \ {"L1", "L2"} [] e = "End2" -> att \ {"L3"} [] OTHER -> att
   /\ s2' = IF e = "Beg2" THEN TRUE ELSE IF e = "End2" THEN FALSE ELSE s2
@@ -62,67 +69,73 @@ Prefix == IF Side = "client"
           THEN << [e |-> "AOpen", cfg |-> [mfs |-> 4096]], [e |-> "PHeader", kind |-> "amqp"],
                   [e |-> "PFrame", perf |-> "open", ch |-> 0, f |-> [mfs |-> 4096, chmax |-> 10]],
                   [e |-> "ABegin", s |-> "s1", cfg |-> [noi |-> 1000, iw |-> 100, ow |-> 100]],
-                  [e |-> "PFrame", perf |-> "begin", ch |-> 3, f |-> [rch |-> [ref |-> "s1"], noi |-> 0, iw |-> 1000, ow |-> 100]] >>
+                  [e |-> "PFrame", perf |-> "begin", ch |-> C1, f |-> [rch |-> [ref |-> "s1"], noi |-> 0, iw |-> 1000, ow |-> 100]] >>
           ELSE << [e |-> "AAccept", cfg |-> [mfs |-> 4096]], [e |-> "PHeader", kind |-> "amqp"],
                   [e |-> "PFrame", perf |-> "open", ch |-> 0, f |-> [mfs |-> 4096, chmax |-> 10]],
                   [e |-> "AAcceptSession", s |-> "s1", cfg |-> [noi |-> 1000, iw |-> 100, ow |-> 100]],
-                  [e |-> "PFrame", perf |-> "begin", ch |-> 3, f |-> [rch |-> -1, noi |-> 0, iw |-> 1000, ow |-> 100]] >>
+                  [e |-> "PFrame", perf |-> "begin", ch |-> C1, f |-> [rch |-> -1, noi |-> 0, iw |-> 1000, ow |-> 100]] >>
 \* attaching: the client attaches and the peer answers; the listener accepts what the peer attaches
 Att(l, s, ch, h, eutSender, cfgC, cfgL) ==
   IF Side = "client" THEN << [e |-> IF eutSender THEN "AAttachS" ELSE "AAttachR", l |-> l, s |-> s, cfg |-> cfgC], PAtt(ch, l, h, IF eutSender THEN "r" ELSE "s") >>
   ELSE << [e |-> "AAcceptLink", l |-> l, s |-> s, cfg |-> cfgL], PAtt(ch, l, h, IF eutSender THEN "r" ELSE "s") >>
 Conc(e, m) ==
-  CASE e = "AttS1" -> Att("L1", "s1", 3, H(5), TRUE, [snd |-> 2, rcv |-> 0, idc |-> 0], [credit |-> 10]) \o << Credit(3, 0, H(5)) >>
-    [] e = "AttR2" -> Att("L2", "s1", 3, H(6), FALSE, [snd |-> 2, rcv |-> 0, credit |-> 10, auto_accept |-> TRUE], [credit |-> 10])
+  CASE e = "AttS1" -> Att("L1", "s1", C1, H(5), TRUE, [snd |-> 2, rcv |-> 0, idc |-> 0], [credit |-> 10]) \o << Credit(C1, 0, H(5)) >>
+    [] e = "AttR2" -> Att("L2", "s1", C1, H(6), FALSE, [snd |-> 2, rcv |-> 0, credit |-> 10, auto_accept |-> TRUE], [credit |-> 10])
     [] e = "AttDup" -> << [e |-> "AAttachS", l |-> "L9", s |-> "s1", cfg |-> [name |-> "L1", snd |-> 2, rcv |-> 0, idc |-> 0]] >>
     [] e = "Refuse4" -> << [e |-> "AAttachR", l |-> "L4", s |-> "s1", cfg |-> [snd |-> 2, rcv |-> 0, credit |-> 10]],
-                           [e |-> "PFrame", perf |-> "attach", ch |-> 3, f |-> [name |-> "L4", h |-> H(8), role |-> "s", snd |-> 2, rcv |-> 0, idc |-> 0, src |-> FALSE, tgt |-> FALSE]],
-                           PDet(3, H(8), TRUE, "amqp:not-found") >>
-    [] e = "DetS1" -> << [e |-> "ADetach", l |-> "L1", closed |-> FALSE], PDet(3, H(5), FALSE, "") >>
-    [] e = "CloseS1" -> << [e |-> "ADetach", l |-> "L1", closed |-> TRUE], PDet(3, H(5), TRUE, "") >>
-    [] e = "DropS1" -> << [e |-> "ADrop", h |-> "l:L1"], PDet(3, H(5), TRUE, "") >>
-    [] e = "CloseR2" -> << [e |-> "ADetach", l |-> "L2", closed |-> TRUE], PDet(3, H(6), TRUE, "") >>
-    [] e = "PDetS1err" -> << PDet(3, H(5), TRUE, "x:gone"), Send("L1", m, FALSE) >>
-    [] e = "PDetS1nc" -> << PDet(3, H(5), FALSE, ""), Send("L1", m, FALSE) >>
-    [] e = "PCloseR2" -> << PDet(3, H(6), TRUE, "x:gone"), [e |-> "ARecv", l |-> "L2"] >>
+                           [e |-> "PFrame", perf |-> "attach", ch |-> C1, f |-> [name |-> "L4", h |-> H(8), role |-> "s", snd |-> 2, rcv |-> 0, idc |-> 0, src |-> FALSE, tgt |-> FALSE]],
+                           PDet(C1, H(8), TRUE, "amqp:not-found") >>
+    [] e = "DetS1" -> << [e |-> "ADetach", l |-> "L1", closed |-> FALSE], PDet(C1, H(5), FALSE, "") >>
+    [] e = "CloseS1" -> << [e |-> "ADetach", l |-> "L1", closed |-> TRUE], PDet(C1, H(5), TRUE, "") >>
+    [] e = "DropS1" -> << [e |-> "ADrop", h |-> "l:L1"], PDet(C1, H(5), TRUE, "") >>
+    [] e = "CloseR2" -> << [e |-> "ADetach", l |-> "L2", closed |-> TRUE], PDet(C1, H(6), TRUE, "") >>
+    [] e = "PDetS1err" -> << PDet(C1, H(5), TRUE, "x:gone"), Send("L1", m, FALSE) >>
+    [] e = "PDetS1nc" -> << PDet(C1, H(5), FALSE, ""), Send("L1", m, FALSE) >>
+    [] e = "PCloseR2" -> << PDet(C1, H(6), TRUE, "x:gone"), [e |-> "ARecv", l |-> "L2"] >>
     [] e = "Send1" -> << Send("L1", m, FALSE) >>
-    [] e = "SendDrop1" -> << Send("L1", m, FALSE), [e |-> "ADrop", h |-> "l:L1"], PDet(3, H(5), TRUE, "") >>
-    [] e = "SendDet1" -> << Send("L1", m, FALSE), [e |-> "ADetach", l |-> "L1", closed |-> TRUE], PDet(3, H(5), TRUE, "") >>
+    [] e = "SendDrop1" -> << Send("L1", m, FALSE), [e |-> "ADrop", h |-> "l:L1"], PDet(C1, H(5), TRUE, "") >>
+    [] e = "SendDet1" -> << Send("L1", m, FALSE), [e |-> "ADetach", l |-> "L1", closed |-> TRUE], PDet(C1, H(5), TRUE, "") >>
     [] e = "Beg2" -> IF Side = "client" THEN << [e |-> "ABegin", s |-> "s2", cfg |-> [noi |-> 1000, iw |-> 100, ow |-> 100]],
-                                                [e |-> "PFrame", perf |-> "begin", ch |-> 4, f |-> [rch |-> [ref |-> "s2"], noi |-> 0, iw |-> 1000, ow |-> 100]] >>
+                                                [e |-> "PFrame", perf |-> "begin", ch |-> C2, f |-> [rch |-> [ref |-> "s2"], noi |-> 0, iw |-> 1000, ow |-> 100]] >>
                      ELSE << [e |-> "AAcceptSession", s |-> "s2", cfg |-> [noi |-> 1000, iw |-> 100, ow |-> 100]],
-                             [e |-> "PFrame", perf |-> "begin", ch |-> 4, f |-> [rch |-> -1, noi |-> 0, iw |-> 1000, ow |-> 100]] >>
-    [] e = "AttS3" -> Att("L3", "s2", 4, H(7), TRUE, [snd |-> 2, rcv |-> 0, idc |-> 0], [credit |-> 10]) \o << Credit(4, 1, H(7)) >>
+                             [e |-> "PFrame", perf |-> "begin", ch |-> C2, f |-> [rch |-> -1, noi |-> 0, iw |-> 1000, ow |-> 100]] >>
+    [] e = "AttS3" -> Att("L3", "s2", C2, H(7), TRUE, [snd |-> 2, rcv |-> 0, idc |-> 0], [credit |-> 10]) \o << Credit(C2, 1, H(7)) >>
     [] e = "Send3" -> << Send("L3", m, FALSE) >>
     [] e = "Beg3" -> IF Side = "client" THEN << [e |-> "ABegin", s |-> "s3", cfg |-> [noi |-> 1000, iw |-> 100, ow |-> 100]],
-                                                [e |-> "PFrame", perf |-> "begin", ch |-> 3, f |-> [rch |-> [ref |-> "s3"], noi |-> 0, iw |-> 1000, ow |-> 100]] >>
+                                                [e |-> "PFrame", perf |-> "begin", ch |-> C1, f |-> [rch |-> [ref |-> "s3"], noi |-> 0, iw |-> 1000, ow |-> 100]] >>
                      ELSE << [e |-> "AAcceptSession", s |-> "s3", cfg |-> [noi |-> 1000, iw |-> 100, ow |-> 100]],
-                             [e |-> "PFrame", perf |-> "begin", ch |-> 3, f |-> [rch |-> -1, noi |-> 0, iw |-> 1000, ow |-> 100]] >>
-    [] e = "AttS5" -> Att("L5", "s3", 3, H(9), TRUE, [snd |-> 2, rcv |-> 0, idc |-> 0], [credit |-> 10]) \o << Credit(3, 0, H(9)) >>
+                             [e |-> "PFrame", perf |-> "begin", ch |-> C1, f |-> [rch |-> -1, noi |-> 0, iw |-> 1000, ow |-> 100]] >>
+    [] e = "AttS5" -> Att("L5", "s3", C1, H(9), TRUE, [snd |-> 2, rcv |-> 0, idc |-> 0], [credit |-> 10]) \o << Credit(C1, 0, H(9)) >>
     [] e = "Send5" -> << Send("L5", m, FALSE) >>
-    [] e = "End1" -> << [e |-> "AEnd", s |-> "s1"], [e |-> "PFrame", perf |-> "end", ch |-> 3, f |-> [err |-> ""]] >>
-    [] e = "End1PErr" -> << [e |-> "AEnd", s |-> "s1"], [e |-> "PFrame", perf |-> "end", ch |-> 3, f |-> [err |-> "x:ended"]] >>
-    [] e = "In2" -> << [e |-> "PFrame", perf |-> "transfer", ch |-> 3, f |-> [h |-> H(6), did |-> m, tagn |-> 1, tag |-> <<m % 250>>, fmt |-> 0, settled |-> "t", more |-> FALSE], msg |-> [m |-> 300 + m, len |-> 20, shape |-> "data"]] >>
-    [] e = "End1err" -> << [e |-> "AEnd", s |-> "s1", err |-> "internal"], [e |-> "PFrame", perf |-> "end", ch |-> 3, f |-> [err |-> ""]] >>
-    [] e = "SendEnd1" -> << Send("L1", m, FALSE), [e |-> "AEnd", s |-> "s1"], [e |-> "PFrame", perf |-> "end", ch |-> 3, f |-> [err |-> ""]] >>
+    [] e = "End1" -> << [e |-> "AEnd", s |-> "s1"], [e |-> "PFrame", perf |-> "end", ch |-> C1, f |-> [err |-> ""]] >>
+    [] e = "End1PErr" -> << [e |-> "AEnd", s |-> "s1"], [e |-> "PFrame", perf |-> "end", ch |-> C1, f |-> [err |-> "x:ended"]] >>
+    [] e = "In2" -> << [e |-> "PFrame", perf |-> "transfer", ch |-> C1, f |-> [h |-> H(6), did |-> m, tagn |-> 1, tag |-> <<m % 250>>, fmt |-> 0, settled |-> "t", more |-> FALSE], msg |-> [m |-> 300 + m, len |-> 20, shape |-> "data"]] >>
+    [] e = "End1err" -> << [e |-> "AEnd", s |-> "s1", err |-> "internal"], [e |-> "PFrame", perf |-> "end", ch |-> C1, f |-> [err |-> ""]] >>
+    [] e = "SendEnd1" -> << Send("L1", m, FALSE), [e |-> "AEnd", s |-> "s1"], [e |-> "PFrame", perf |-> "end", ch |-> C1, f |-> [err |-> ""]] >>
     \* the peer closes the link and the application does not touch it: its handle and name stay taken until the endpoint has answered
-    [] e = "PDetS1idle" -> << PDet(3, H(5), TRUE, "") >>
+    [] e = "PDetS1idle" -> << PDet(C1, H(5), TRUE, "") >>
     \* the peer closes first and the application answers by closing / dropping its handle: one detach per attach
-    [] e = "PDetS1close" -> << [e |-> "AOnDetach", l |-> "L1"], PDet(3, H(5), TRUE, ""), [e |-> "ADetach", l |-> "L1", closed |-> TRUE] >>
-    [] e = "PDetS1drop" -> << PDet(3, H(5), TRUE, ""), [e |-> "ADrop", h |-> "l:L1"] >>
-    [] e = "PDetS1seenDrop" -> << [e |-> "AOnDetach", l |-> "L1"], PDet(3, H(5), TRUE, ""), [e |-> "ADrop", h |-> "l:L1"] >>
+    [] e = "PDetS1close" -> << [e |-> "AOnDetach", l |-> "L1"], PDet(C1, H(5), TRUE, ""), [e |-> "ADetach", l |-> "L1", closed |-> TRUE] >>
+    [] e = "PDetS1drop" -> << PDet(C1, H(5), TRUE, ""), [e |-> "ADrop", h |-> "l:L1"] >>
+    [] e = "R6FullPClose" ->
+         << [e |-> "AAttachR", l |-> "L6", s |-> "s1", cfg |-> [snd |-> 2, rcv |-> 0, credit |-> 10, auto_accept |-> TRUE, lbuf |-> 3]],
+            PAtt(C1, "L6", H(10), "s") >>
+         \o [i \in 1..3 |-> [e |-> "PFrame", perf |-> "transfer", ch |-> C1, f |-> [h |-> H(10), did |-> 40 + i, tagn |-> 1, tag |-> <<40 + i>>, fmt |-> 0, settled |-> "t", more |-> FALSE],
+                               msg |-> [m |-> 340 + i, len |-> 20, shape |-> "data"], nosettle |-> (i = 3)]]
+         \o << PDet(C1, H(10), TRUE, "x:gone"), [e |-> "ARecv", l |-> "L6"], [e |-> "ARecv", l |-> "L6"], [e |-> "ARecv", l |-> "L6"], [e |-> "ARecv", l |-> "L6"] >>
+    [] e = "PDetS1seenDrop" -> << [e |-> "AOnDetach", l |-> "L1"], PDet(C1, H(5), TRUE, ""), [e |-> "ADrop", h |-> "l:L1"] >>
     [] e \in {"End1Traffic", "End1errTraffic"} ->
          << [e |-> "AEnd", s |-> "s1", err |-> IF e = "End1errTraffic" THEN "internal" ELSE ""],
-            [e |-> "PFrame", perf |-> "flow", ch |-> 3, ech |-> 0, f |-> [nii |-> [seen |-> 0], iw |-> 1000, noi |-> 0, ow |-> 100, h |-> H(5), dc |-> [seen |-> 0], lc |-> 50, echo |-> TRUE]],
-            [e |-> "PFrame", perf |-> "flow", ch |-> 3, ech |-> 0, f |-> [nii |-> [seen |-> 0], iw |-> 1000, noi |-> 0, ow |-> 100, echo |-> TRUE]],
-            [e |-> "PFrame", perf |-> "end", ch |-> 3, f |-> [err |-> ""]] >>
+            [e |-> "PFrame", perf |-> "flow", ch |-> C1, ech |-> 0, f |-> [nii |-> [seen |-> 0], iw |-> 1000, noi |-> 0, ow |-> 100, h |-> H(5), dc |-> [seen |-> 0], lc |-> 50, echo |-> TRUE]],
+            [e |-> "PFrame", perf |-> "flow", ch |-> C1, ech |-> 0, f |-> [nii |-> [seen |-> 0], iw |-> 1000, noi |-> 0, ow |-> 100, echo |-> TRUE]],
+            [e |-> "PFrame", perf |-> "end", ch |-> C1, f |-> [err |-> ""]] >>
     \* work queued and the session ended with an error in the same scheduler turn
     [] e = "SendQEndErr1" -> << [e |-> "ASend", l |-> "L1", m |-> m, len |-> 20, settled |-> TRUE, batchable |-> TRUE, nosettle |-> TRUE],
-                                [e |-> "AEnd", s |-> "s1", err |-> "internal"], [e |-> "PFrame", perf |-> "end", ch |-> 3, f |-> [err |-> ""]] >>
-    [] e = "DropEndErr1" -> << [e |-> "ADrop", h |-> "l:L1", nosettle |-> TRUE], [e |-> "AEnd", s |-> "s1", err |-> "internal"], [e |-> "PFrame", perf |-> "end", ch |-> 3, f |-> [err |-> ""]] >>
-    [] e = "PEnd1" -> << [e |-> "PFrame", perf |-> "end", ch |-> 3, f |-> [err |-> ""]], [e |-> "AEnd", s |-> "s1"] >>
-    [] e = "PEnd1err" -> << [e |-> "PFrame", perf |-> "end", ch |-> 3, f |-> [err |-> "x:ended"]], [e |-> "AEnd", s |-> "s1"] >>
-    [] e = "End2" -> << [e |-> "AEnd", s |-> "s2"], [e |-> "PFrame", perf |-> "end", ch |-> 4, f |-> [err |-> ""]] >>
+                                [e |-> "AEnd", s |-> "s1", err |-> "internal"], [e |-> "PFrame", perf |-> "end", ch |-> C1, f |-> [err |-> ""]] >>
+    [] e = "DropEndErr1" -> << [e |-> "ADrop", h |-> "l:L1", nosettle |-> TRUE], [e |-> "AEnd", s |-> "s1", err |-> "internal"], [e |-> "PFrame", perf |-> "end", ch |-> C1, f |-> [err |-> ""]] >>
+    [] e = "PEnd1" -> << [e |-> "PFrame", perf |-> "end", ch |-> C1, f |-> [err |-> ""]], [e |-> "AEnd", s |-> "s1"] >>
+    [] e = "PEnd1err" -> << [e |-> "PFrame", perf |-> "end", ch |-> C1, f |-> [err |-> "x:ended"]], [e |-> "AEnd", s |-> "s1"] >>
+    [] e = "End2" -> << [e |-> "AEnd", s |-> "s2"], [e |-> "PFrame", perf |-> "end", ch |-> C2, f |-> [err |-> ""]] >>
 RECURSIVE Body(_, _)
 Body(sc, i) == IF i > Len(sc) THEN <<>> ELSE Conc(sc[i], i) \o Body(sc, i + 1)
 Suffix == << [e |-> "AClose", err |-> ""], [e |-> "PFrame", perf |-> "close", ch |-> 0, f |-> [err |-> ""]] >>
